@@ -34,7 +34,8 @@ def run(tier):
     k = 0
     for css, msm in ((32, False), (32, True)):
         for _ in range(len(tprogs) // 2):
-            tprogs[k]["opts"] = {"css": css, "msm": msm}
+            # a small fixed register file: a tail call that leaves anything behind overflows it
+            tprogs[k]["opts"] = {"css": css, "msm": msm, "rs": 700, "rms": 700}
             tprogs[k]["id"] = len(progs) + k + 1
             k += 1
     verd, cov, allv, allo, stats = lsem.run_families(
@@ -48,6 +49,17 @@ def run(tier):
             continue
         if o["outcome"][0] != "ok" and allv[p["id"]]["v"] == "ok":
             pass
+    # Frames (TLC): successive iterations of a tail-call loop see the same call depth, stack height and frame skeleton
+    recs = [{"id": p["id"], "snaps": allo[p["id"]].get("snaps") or [], "nres": 0} for p in tprogs if allo[p["id"]].get("snaps")]
+    nfr = 0
+    for r in vlib.validate_batches("FramesTrace", "FramesTrace", recs, "c02fr", batch=4, parallel=4, timeout=900, heap="3g"):
+        for v in r.tag("VERDICT"):
+            nfr += 1
+            if not v["ok"]:
+                pp = [p for p in tprogs if p["id"] == v["id"]][0]
+                verd.candidate("C02:frames:tail-loop:%s" % v["rule"], "tail-call loop: control skeleton violates '%s' at snapshot %d of %d" % (v["rule"], v["at"], v["n"]), {"program": pp, "verdict": v})
+    vlib.log("[C02] FramesTrace: %d tail-call loops with per-iteration snapshots validated" % nfr)
+    cov["frames_tail_loops_validated"] = nfr
     rc = verd.finish()
     cov["known_findings_hit"] = sorted(verd.known_hit)
     cov["shape_space"] = nshapes
